@@ -249,11 +249,34 @@ fn exact_grid(args: &Args, rep: &mut Report) {
                     rep.nontrivial(crate::rng::hash64(&format!("exact|{text}|{d0}")));
                 }
                 Err(msg) => {
-                    rep.violation("state_next_change_exact", format!("{text:?} [none]: {msg}"), json!({"expr": text, "holidays": "none", "exact_from": d0.to_string(), "exact_to": d1.to_string(), "seed": args.seed, "stream": idx}), None);
+                    rep.violation("state_next_change_exact", format!("{text:?} [none]: {msg}"), json!({"expr": text, "holidays": "none", "exact_from": d0.to_string(), "exact_to": d1.to_string(), "seed": args.seed, "stream": idx, "rs": 0xe8ac7, "samples": if args.thorough() { 400 } else { 120 }}), None);
                     if rep.full() {
                         return;
                     }
                     break;
+                }
+            }
+        }
+    }
+    // time-shape grid (pairs of boundary-valued spans under a few day selectors), 2024..2031
+    let shapes = stream::grid_time_shapes(args.thorough(), args.seed + 1);
+    let (d0, d1) = (ymd(2024, 1, 1), ymd(if args.thorough() { 2047 } else { 2031 }, 12, 31));
+    for (i, text) in shapes.iter().enumerate() {
+        if (i as u64) % args.of.max(1) != args.worker {
+            continue;
+        }
+        let Some(oh) = build(text, &HolSpec::None) else { continue };
+        rep.evaluations += 1;
+        rep.begin(&format!("time-shape grid {text} | {d0} .. {d1}"));
+        match stream::check_exact(&oh, d0, d1, &mut Rng::new(args.seed, 0x71e5, i as u64), 24, &mut st) {
+            Ok(()) => {
+                rep.count("time_shape_grid_windows_passed");
+                rep.nontrivial(crate::rng::hash64(&format!("exact|{text}|{d0}")));
+            }
+            Err(msg) => {
+                rep.violation("state_next_change_exact", format!("{text:?} [none]: {msg}"), json!({"expr": text, "holidays": "none", "exact_from": d0.to_string(), "exact_to": d1.to_string(), "seed": args.seed, "stream": i, "rs": 0x71e5, "samples": 24}), None);
+                if rep.full() {
+                    return;
                 }
             }
         }
@@ -355,8 +378,8 @@ pub fn replay(args: &Args, case: &Value, rep: &mut Report) {
             return;
         };
         let mut st = stream::ExactStats { days_evaluated: 0, intervals_compared: 0, next_change_calls: 0 };
-        let mut r = Rng::new(case["seed"].as_u64().unwrap_or(5), 0xe8ac7, case["stream"].as_u64().unwrap_or(0));
-        if let Err(msg) = stream::check_exact(&oh, d0, d1, &mut r, 400, &mut st) {
+        let mut r = Rng::new(case["seed"].as_u64().unwrap_or(5), case["rs"].as_u64().unwrap_or(0xe8ac7), case["stream"].as_u64().unwrap_or(0));
+        if let Err(msg) = stream::check_exact(&oh, d0, d1, &mut r, case["samples"].as_u64().unwrap_or(400) as usize, &mut st) {
             rep.violation("state_next_change_exact", format!("{text:?} [{}]: {msg}", hol.to_string()), case.clone(), None);
         }
         return;
